@@ -18,17 +18,19 @@ per-flag vocabulary (`C05X_tree_vocab`).  Here the rest of C05 is derived:
    its tag; the `hr` is there because `ListIndentProcessor` parses `***` with the inner `ul` as parent).  The xhtml
    output loses the paragraph, the html output keeps it: the implementation behaves the same
    (`markdown.markdown(src, extensions=['admonition'])`).
-2. **the output is a well-formed fragment of the vocabulary** — `C05X_partial`: for every `<`-free source and every
-   set of extensions without attr_list, admonition and fenced_code, whatever `convertX` returns is accepted by the strict
-   reader and every element read back has a tag of `tagOkX x` and attribute names of `keyOkX x` (`RXL`), under ONE
-   residual, decidable hypothesis — the serialised tree does not contain the ampersand substitute `STX amp ETX`
-   (as `C05_partial2` for the core; the core proof of it, `C05_full`, rests on 2800 lines about `Inline.run` that are not
-   redone for the pattern table of `runX`); `C05X_partial_general` covers attr_list (when every attribute name is a
-   name) and fenced_code (when the document has no fenced block); `C05X_upto_ampsub` is the statement without any
-   hypothesis:
-   the output is `AndSubstitutePostprocessor` + `strip` of such a fragment.  The footnote postprocessor
-   (`&#8617;`, `&#160;`) and the raw-HTML restore of the entity references commute with the serializer
-   (`C05X_pass_commutes`).
+2. **the output is a well-formed fragment of the vocabulary** — **`C05X_full`**: for every `<`-free source and every
+   set of extensions without attr_list, admonition and fenced_code (tables, def_list, abbr, footnotes, sane_lists,
+   nl2br, wikilinks, toc: any), whatever `convertX` returns is accepted by the strict reader and every element read
+   back has a tag of `tagOkX x` and attribute names of `keyOkX x` (`RXL`) — the C05 statement on the extension
+   pipeline, no residual hypothesis (`EscTwo cfg.esc`: the escapable characters have two-digit codes, as in
+   `C05_full`).  `C05X_full_general` covers attr_list (when every attribute name is a name) and fenced_code (when the
+   document has no fenced block).  Ingredients: the footnote postprocessor (`&#8617;`, `&#160;`) and the raw-HTML
+   restore of the entity references commute with the serializer (`C05X_pass_commutes`); the ampersand substitute
+   `STX amp ETX` never occurs in the serialised tree (`C05X_no_amp_substitute`: the invariant of `C05_full` — every STX
+   is followed by a placeholder letter or a two-digit number — ported to the pattern table of `runX`, with the letters
+   of the two footnote tokens, and carried through footnotes, abbr, attr_list and toc:
+   `Lemmas/VocabXWFAmp*.lean`).  `C05X_partial`, `C05X_upto_ampsub`: the statements with the residual hypothesis
+   spelt out / without it up to `AndSubstitutePostprocessor`.
 3. **attr_list** — `C05X_attr_list_values_escaped`: whatever attr_list writes, an attribute name is `class`, `id`, … or
    made of `sanitize_name`'s characters, none of which is a blank, a quote, `=`, `<`, `>`, `/` or `&`; and the
    serializer writes every attribute VALUE escaped: no `"`, `<`, `>` in it and every `&` the start of an entity
@@ -39,6 +41,7 @@ Only property statements live here; proofs in `MdVerif/Lemmas/VocabXWF*.lean`.  
 -/
 import MdVerif.Lemmas.VocabXWFPipe4
 import MdVerif.Lemmas.VocabXWFConv
+import MdVerif.Lemmas.VocabXWFAmpPipe
 import MdVerif.Props.C14X
 
 namespace MdVerif.C05
@@ -111,6 +114,21 @@ theorem C05X_rootDiv (x : Exts) (hadm : x.admonition = false) (cfg : Pipeline.Cf
 /-- attr_list on: an attribute list at the end of the document belongs to the last paragraph, not to the root -/
 example : (match treeX { attrList := true } {} "para\n\nlast\n{: #i .c }".toList with
     | .ok u _ => C14X.rootDiv u | _ => false) = true := by decide +kernel
+
+/-- **the `<div>` strip of `Markdown.convert` never fails** (error source (4) of `Props/C02X.lean`): the serialised
+    tree always starts with `<div>` and ends with `</div>`, so `finishX` never answers `err` — for every flag set
+    without admonition, every stash -/
+theorem C05X_strip_never_fails (x : Exts) (hadm : x.admonition = false) (cfg : Pipeline.Cfg)
+    (src : Str) (u : Node) (html : List Str) (h : treeX x cfg src = .ok u html) :
+    Post.topLevelStrip (serialize cfg.fmt u) = some (strip (inner cfg.fmt u)) ∧
+      finishX x cfg html (serialize cfg.fmt u) ≠ .err := by
+  have hd := C05X_rootDiv x hadm cfg src u html h
+  have e := C14X.topLevelStrip_div cfg.fmt u hd
+  refine ⟨e, ?_⟩
+  unfold finishX
+  rw [e]
+  dsimp only
+  split <;> simp
 
 /-- `C14X_doc_spelling_notoc` without its two tree hypotheses: html and xhtml documents differ only in spelling, for
     every flag set without attr_list, admonition and toc, any stash -/
@@ -242,6 +260,67 @@ example :
     (match convertX x {} src with
      | .ok out => (readForest .xhtml out).map (RXL (tagOkX x) (keyOkX x)) | _ => none) = some true := by
   refine ⟨by decide +kernel, by decide +kernel, by decide +kernel⟩
+
+/-- the children of the root are trees of named elements with names that are names, distinct attribute names and
+    empty void elements (`GNL`: the tree class of the output-level lemmas) -/
+theorem C05X_tree_gnl (x : Exts) (hadm : x.admonition = false) (cfg : Pipeline.Cfg)
+    (src : Str) (u : Node) (html : List Str) (h : treeX x cfg src = .ok u html) (hnames : NI keysNamed u) :
+    GNL u.children = true := by
+  have hq := treeX_NI x cfg src u html h
+  have hgn := VocabXWF.gn_of x u hq hnames (VocabXWF.treeX_WF x hadm cfg src u html h).1
+  obtain ⟨tag, attrs, text, ta, children, tail, tla⟩ := u
+  cases tag <;> simp only [GN, Bool.and_eq_true] at hgn
+  · exact hgn.2
+  all_goals exact absurd hgn.1 (by simp)
+
+/-- **No ampersand substitute in the serialised tree** — the former hypothesis `hamp`, proved: for every flag set
+    without admonition whose preprocessors stored nothing (no fenced_code, or no fenced block), every configuration
+    whose escapable characters have two-digit codes and every source, the serialisation of the tree of `treeX` does not
+    contain `STX amp ETX` (which `AndSubstitutePostprocessor` would turn into a raw `&`). -/
+theorem C05X_no_amp_substitute (x : Exts) (hadm : x.admonition = false) (cfg : Pipeline.Cfg)
+    (hesc : AmpFull.EscTwo cfg.esc) (src : Str)
+    (hst : ∀ text stash, prepareX x cfg src = .ok (text, stash) → stash = []) (u : Node) (html : List Str)
+    (h : treeX x cfg src = .ok u html) (hnames : NI keysNamed u) :
+    contains (inner cfg.fmt u) Post.ampSubstitute = false :=
+  VocabXAmp.treeX_no_amp_stash x cfg (VocabXAmp.escTwo_escX x hesc) src hst u html h
+    (C05X_tree_gnl x hadm cfg src u html h hnames)
+
+/-- **C05 on the extension pipeline.**  For every set of extensions without attr_list, admonition and fenced_code
+    (tables, def_list, abbr, footnotes, sane_lists, nl2br, wikilinks, toc: any), every configuration whose escapable
+    characters have codes of at least two digits (tab length, output format and block-level set are arbitrary) and
+    every source text without `<` — with or without `&`, entity references, quotes, brackets, backslashes, control
+    characters, footnotes referenced several times, abbreviations that cut placeholders, the constructions that make
+    placeholders leak: whatever `convertX` returns is accepted by the strict reader — every element closed and properly
+    nested, every attribute value quoted, no attribute name twice, no raw `<`/`>` in text, no raw `"` in an attribute
+    value, every `&` the start of an entity reference — and consists of text and elements of the vocabulary of the
+    enabled extensions (`RXL (tagOkX x) (keyOkX x)`). -/
+theorem C05X_full (x : Exts) (hal : x.attrList = false) (hadm : x.admonition = false)
+    (hfc : x.fencedCode = false) (cfg : Pipeline.Cfg) (hesc : AmpFull.EscTwo cfg.esc) (src out : Str)
+    (hlt : '<' ∉ src) (hc : convertX x cfg src = .ok out) :
+    ∃ forest, readForest cfg.fmt out = some forest ∧ RXL (tagOkX x) (keyOkX x) forest = true :=
+  C05X_partial x hal hadm hfc cfg src out hlt
+    (fun u html h => C05X_no_amp_substitute x hadm cfg hesc src
+      (fun _ _ e => VocabXOut.prepareX_stash_nil hfc e) u html h
+      (VocabXWF.keysNamed_of_qtX x hal (treeX_NI x cfg src u html h))) hc
+
+/-- the default configuration, both output formats -/
+theorem C05X_full_default (x : Exts) (hal : x.attrList = false) (hadm : x.admonition = false)
+    (hfc : x.fencedCode = false) (fmt : Fmt) (src out : Str) (hlt : '<' ∉ src)
+    (hc : convertX x { fmt := fmt } src = .ok out) :
+    ∃ forest, readForest fmt out = some forest ∧ RXL (tagOkX x) (keyOkX x) forest = true :=
+  C05X_full x hal hadm hfc { fmt := fmt } (show AmpFull.EscTwo Generated.escapedChars by decide) src out hlt hc
+
+/-- **the general form** (attr_list and fenced_code on or off; cf. `C05X_partial_general`): the only hypotheses left are
+    `hst` — the preprocessors stored nothing (no fenced block) — and `hnames` — every attribute name of the tree is a
+    name (automatic without attr_list) -/
+theorem C05X_full_general (x : Exts) (hadm : x.admonition = false) (cfg : Pipeline.Cfg)
+    (hesc : AmpFull.EscTwo cfg.esc) (src out : Str) (hlt : '<' ∉ src)
+    (hst : ∀ text stash, prepareX x cfg src = .ok (text, stash) → stash = [])
+    (hnames : ∀ u html, treeX x cfg src = .ok u html → NI keysNamed u)
+    (hc : convertX x cfg src = .ok out) :
+    ∃ forest, readForest cfg.fmt out = some forest ∧ RXL (tagOkX x) (keyOkX x) forest = true :=
+  C05X_partial_general x hadm cfg src out hlt hst hnames
+    (fun u html h => C05X_no_amp_substitute x hadm cfg hesc src hst u html h (hnames u html h)) hc
 
 /-- the core vocabulary is the instance without flags: `RXL (tagOkX {}) (keyOkX {})` is `RGoodList` plus the `div` -/
 example : RX (tagOkX {}) (keyOkX {}) (.elem "p".toList [("title".toList, [])] [.text []]) = true ∧
